@@ -12,7 +12,8 @@ trap 'rm -rf $D' EXIT
 git -C /repo archive HEAD | tar -x -C $D
 cd $D && git init -q . && git add -A >/dev/null && git -c user.email=x@x -c user.name=x commit -qm base
 DEMO=$(ls $M/*_test.go | head -1)
-RFLAG=""; [ -n "$RACE" ] && RFLAG="-race"
+RFLAG=""; [ -n "$RACE" ] && [ "$RACE" != "-" ] && RFLAG="-race"
+[ -n "${DEMO_TAGS:-}" ] && RFLAG="$RFLAG -tags $DEMO_TAGS"
 echo "== clean tree: demo must pass"
 cp $DEMO $D/$PKG/demo_mutant_test.go
 (cd $D/$PKG && go test $RFLAG -vet=off -count=1 -run 'Demo|Mutant' . 2>&1 | tail -3); echo "demo-clean-exit=${PIPESTATUS[0]}"
